@@ -19,7 +19,8 @@ type PropSpec struct {
 	Exclude     []string `json:"exclude"`
 	Explanation string   `json:"explanation"`
 	Assumptions []string `json:"assumptions"`
-	Bounded     []string `json:"bounded"` // names of bounded stand-ins (reported, run by the check script, never counted as discharged)
+	Bounded     []string `json:"bounded"` // descriptions of bounded stand-ins (never counted as discharged)
+	BoundedCmds map[string]map[string]string `json:"bounded_cmds"` // name -> tier -> command (cwd /verif) printing one JSON line {"name","ok","bound",...,"counterexample"}
 	NotDecided  []string `json:"not_decided"`
 }
 
@@ -165,6 +166,39 @@ func (x *Exec) runProperty(prop, mapFile, tier, evDir, dump, known, replayDir st
 		}
 		fmt.Printf("VIOLATION property=%s replay=%s no-failing-input-found\n", prop, rp)
 	}
+	// bounded stand-ins: labelled bounded everywhere, never added to the discharged count
+	var boundedRes []map[string]interface{}
+	var bnames []string
+	for n := range ps.BoundedCmds {
+		bnames = append(bnames, n)
+	}
+	sort.Strings(bnames)
+	for _, n := range bnames {
+		cmdline := ps.BoundedCmds[n][tier]
+		if cmdline == "" {
+			cmdline = ps.BoundedCmds[n]["quick"]
+		}
+		tb := time.Now()
+		out, err := exec.Command("sh", "-c", cmdline).CombinedOutput()
+		var res map[string]interface{}
+		lines := strings.Split(strings.TrimSpace(string(out)), "\n")
+		if jerr := json.Unmarshal([]byte(lines[len(lines)-1]), &res); jerr != nil || err != nil && res == nil {
+			res = map[string]interface{}{"name": n, "ok": false, "counterexample": map[string]interface{}{"problem": "bounded harness did not produce a result", "output": firstLines(string(out), 10)}}
+		}
+		res["cmd"] = cmdline
+		res["wall_s"] = time.Since(tb).Seconds()
+		res["label"] = "bounded"
+		boundedRes = append(boundedRes, res)
+		if ok, _ := res["ok"].(bool); !ok {
+			violations++
+			p := filepath.Join(replayDir, prop+"-bounded-"+n+".json")
+			b, _ := json.MarshalIndent(map[string]interface{}{"property": prop, "failed_obligation": "bounded/" + n, "kind": "bounded stand-in", "failing_input_found": true, "result": res}, "", " ")
+			os.WriteFile(p, b, 0o644)
+			abs, _ := filepath.Abs(p)
+			fmt.Printf("FAILED bounded/%s: %v\n", n, res["counterexample"])
+			fmt.Printf("VIOLATION property=%s replay=%s\n", prop, abs)
+		}
+	}
 	for _, k := range findings {
 		if k.Property == prop && k.Status == "open" && k.Obligation == "witness-only" {
 			if still, _ := witnessStillFails(k.Test); still {
@@ -237,6 +271,7 @@ func (x *Exec) runProperty(prop, mapFile, tier, evDir, dump, known, replayDir st
 		"canaries":                 map[string]int{"cover_obligations": nCover, "reachable": nCoverOK},
 		"known_findings_hit":       knownHit,
 		"bounded_stand_ins":        ps.Bounded,
+		"bounded_results":          boundedRes,
 		"not_decided":              ps.NotDecided,
 		"outside_subset":           subsetErrs,
 		"explanation":              ps.Explanation,
